@@ -250,3 +250,29 @@ Theorem C13_xobject_dims m trns app14 jpeg o w h :
   (xa_w e, xa_h e) = if swaps o then (h, w) else (w, h).
 Proof. exact (expected_dims m trns app14 jpeg o w h). Qed.
 Print Assumptions C13_xobject_dims.
+
+(* ---- the sizing kernels of weasyprint/layout/replaced.py REGENERATED from the source on every run
+   (gen/GenReplaced.v; interpreter base/Py.v; calls between them answered by their own regenerated bodies,
+   base/PyLink.v) compute exactly the models used above, for every input; "vres None" is the raised
+   ZeroDivisionError.  G.voq: None -> Python None; G.vspec x auto: an unspecified size is None or 'auto'. *)
+Require WV.base.Py WV.base.PyLink WV.gen.GenReplaced WV.proofs.C13_gen_sizing.
+Module G := WV.proofs.C13_gen_sizing.
+
+Theorem C13_source_default_image_sizing n i sw sh (aw ah : bool) dw dh :
+  PyLink.link GenReplaced.GenReplaced_table (S (S (S n))) "default_image_sizing"
+    [G.voq (iw i); G.voq (ih i); G.voq (ir i); G.vspec sw aw; G.vspec sh ah; Py.VNum dw; Py.VNum dh]
+  = G.vres (default_sizing i sw sh dw dh).
+Proof. exact (G.gen_default_image_sizing_value n i sw sh aw ah dw dh). Qed.
+Print Assumptions C13_source_default_image_sizing.
+
+Theorem C13_source_contain_constraint_image_sizing n cw ch r :
+  PyLink.link GenReplaced.GenReplaced_table (S (S n)) "contain_constraint_image_sizing"
+    [Py.VNum cw; Py.VNum ch; G.voq r] = G.vres (contain_sizing cw ch r).
+Proof. exact (G.gen_contain_value n cw ch r). Qed.
+Print Assumptions C13_source_contain_constraint_image_sizing.
+
+Theorem C13_source_cover_constraint_image_sizing n cw ch r :
+  PyLink.link GenReplaced.GenReplaced_table (S (S n)) "cover_constraint_image_sizing"
+    [Py.VNum cw; Py.VNum ch; G.voq r] = G.vres (cover_sizing cw ch r).
+Proof. exact (G.gen_cover_value n cw ch r). Qed.
+Print Assumptions C13_source_cover_constraint_image_sizing.
